@@ -117,12 +117,12 @@ class Rig:
 
     def run_sched(self, schedule, programs):
         rc, so, se = farm.run_cmd([os.path.join(self.pr.dir, 'sched'), schedule, programs],
-                                  self.pr.dir, timeout=20)
+                                  self.pr.dir, timeout=40)
         return rc, parse_trace(so), se
 
     def run_free(self, perturb, programs):
         rc, so, se = farm.run_cmd([os.path.join(self.pr.dir, 'free_tsan'), perturb, programs],
-                                  self.pr.dir, timeout=120, env=farm.SAN_ENV['tsan'])
+                                  self.pr.dir, timeout=30, env=farm.SAN_ENV['tsan'])
         return rc, parse_trace(so), se
 
 
@@ -139,11 +139,20 @@ def parse_trace(out):
 
 
 def judge_sched(rig, schedule, programs, ctx_counts):
-    rc, trace, err = rig.run_sched(schedule, programs)
     what = f'schedule {schedule} programs {programs}'
-    if rc == 'timeout':
+    if ctx_counts.get('deadlock_seen'):
+        # every deadlocking schedule costs ~12 s of waiting: once one is recorded, stop exploring
+        raise Fail(f'{what}: skipped after a real deadlock was found in this run', 'deadlock-real')
+    rc, trace, err = rig.run_sched(schedule, programs)
+    if rc == 'timeout' or rc == 4:
+        # 4: an actor blocked on something the scheduler does not own, gating was dropped and the run
+        # then completed: the schedule is not decisive (no verdict)
         ctx_counts['inconclusive'] += 1
         return trace, None
+    if rc == 5:
+        ctx_counts['deadlock_seen'] = True
+        raise Fail(f'{what}: an actor blocked outside the scheduler\'s control and the programs did '
+                   f'not complete even when running freely afterwards (deadlock)', 'deadlock-real')
     if rc == 3 or any(t.get('what') == 'deadlock' for t in trace if t.get('k') == 't'):
         dl = [t for t in trace if t.get('what') == 'deadlock']
         raise Fail(f'{what}: structural deadlock - unfinished actors, none runnable: {dl}', 'deadlock')
@@ -305,15 +314,21 @@ def replay_case(case):
         shutil.rmtree(d, ignore_errors=True)
 
 
+FREE_ABORT = {}
+
+
 def judge_free(rig, pert, programs):
     hangs = 0
+    if FREE_ABORT.get('deadlock'):
+        raise Fail('free run skipped after a deadlock was found in this run', 'free-deadlock')
     while True:
         rc, trace, err = rig.run_free(pert, programs)
         what = f'free run, perturbation {pert}, programs {programs}'
         if rc == 'timeout':
             hangs += 1
-            if hangs >= 3:
-                raise Fail(f'{what}: did not finish within 120 s three times (deadlock)', 'free-deadlock')
+            if hangs >= 2:
+                FREE_ABORT['deadlock'] = True
+                raise Fail(f'{what}: did not finish within 30 s, twice (deadlock)', 'free-deadlock')
             continue
         break
     if 'ThreadSanitizer' in err or rc == 66:
